@@ -36,8 +36,26 @@ base64(16 bytes); Host/Origin differing only in letter case or only by an explic
 carrying userinfo/path/query (host[:port] equal: the statement allows accepting, Tornado rejects);
 Sec-WebSocket-Origin without Origin; malformed permessage-deflate parameter values / window bits 8.
 
-Sensitivity (quick tier, seed 1, scratch copy; all caught): see bottom of this docstring, filled in
-after mutation testing.
+Findings on the current tree (open, see known_findings.d/C17.json and findings_inbox/C17-*.md):
+  F-C17-ext-param-500                       permessage-deflate offer with unknown parameter / bad window bits
+                                            (compression enabled) -> 500 + "Uncaught exception" (AttributeError:
+                                            _abort() before the stream exists)
+  F-C17-client-unoffered-subprotocol        client accepts a 101 selecting a subprotocol it never offered
+  F-C17-client-unknown-valueless-ext-param  client accepts 'permessage-deflate; bar' (_parse_header drops
+                                            parameters without '=')
+False alarm corrected while building: Origin '//example.com' (network-path reference) has host == Host, so
+accepting it does not break "accepts only an Origin whose host and port equal the Host header"; the origin
+splitter now recognises a scheme-less authority.
+
+Sensitivity (quick tier, seed 1, scratch copy of /repo/tornado, one mutant at a time; all caught):
+  M1 check_origin: `origin == host` -> `origin.endswith(host)`                 -> C17.invalid_upgrade_completed (origin)
+  M2 compute_accept_value: GUID lower-cased                                    -> C17.accept_value + C17.client_rejected_valid_response
+  M3 _accept_connection: permessage-deflate echoed although compression is off -> C17.extension_when_disabled
+  M4 _process_server_headers: accept assert removed                            -> C17.client_accepted_bad_response (accept)
+  M5 _handle_websocket_headers: key no longer required                         -> C17.server_error_on_peer_input (key)
+  M6 get(): Connection check by substring ("upgradex" passes)                  -> C17.invalid_upgrade_completed (connection)
+  M7 check_origin: ports ignored on both sides                                 -> C17.invalid_upgrade_completed (origin)
+  M8 _accept_connection: first offered subprotocol echoed when handler chose none -> C17.subprotocol_echo_unselected
 """
 import base64
 
@@ -48,7 +66,7 @@ from vlib.httpharness import LogCapture
 from vlib.util import det_urandom
 
 PROPERTY = "C17"
-READY = False
+READY = True
 RULE = (
     "server: Hypothesis draws one value per factor (method, HTTP version, Upgrade, Connection, key, version, "
     "Host, Origin relative to Host = scheme x userinfo x host-variant x port-variant x tail, origin header "
@@ -664,5 +682,5 @@ PARTS = {"server": run_server_case, "client": run_client_case}
 
 def main(ctx):
     ctx.run_replays(PARTS)
-    ctx.explore(server_case_s, run_server_case, ctx.n(1500, 48000), name="server")
-    ctx.explore(client_case_s, run_client_case, ctx.n(700, 16000), name="client")
+    ctx.explore(server_case_s, run_server_case, ctx.n(3000, 48000), name="server")
+    ctx.explore(client_case_s, run_client_case, ctx.n(1200, 16000), name="client")
